@@ -421,7 +421,7 @@ func c18R1R2(c *Ctx) {
 		}
 	}
 	// IPv4 floor, checked over the whole 32-bit space by interval arithmetic
-	floor4 := []string{"127.0.0.0/8", "0.0.0.0/8", "10.0.0.0/8", "172.16.0.0/12", "192.168.0.0/16", "169.254.0.0/16", "100.64.0.0/10", "224.0.0.0/3"}
+	floor4 := []string{"127.0.0.0/8", "0.0.0.0/8", "10.0.0.0/8", "172.16.0.0/12", "192.168.0.0/16", "169.254.0.0/16", "100.64.0.0/10", "224.0.0.0/3", "192.0.0.0/24" /* RFC 6890 IETF protocol assignments: 192.0.0.192 is a cloud metadata endpoint (F93) */, "198.18.0.0/15" /* RFC 2544 benchmarking, never globally routed (F93) */}
 	for _, f := range floor4 {
 		want := prefixRange(netip.MustParsePrefix(f))
 		ok, at := covered(want, have)
